@@ -1,7 +1,7 @@
 #!/usr/bin/env python3
 """Run checks against seeded mutants on scratch copies of /repo.
 usage: seedtest.py [--props C07,C01] <seeded dir names or 'all'>      results appended to seeded/RESULTS.json"""
-import sys, os, json, subprocess, shutil, time
+import sys, os, json, subprocess, shutil, time, re
 HERE = os.path.dirname(os.path.abspath(__file__))
 sys.path.insert(0, os.path.join(HERE, "..", "lib"))
 import engine, selftest
@@ -13,10 +13,10 @@ if args and args[0] == "--props":
     args = args[2:]
 man = json.load(open(os.path.join(HERE, "..", "MANIFEST.json")))
 claimed = [c["property_id"] for c in man["checks"]]
-allp = sorted(set(claimed) | {p[:-3].upper() for p in os.listdir(os.path.join(HERE, "..", "lib")) if p.startswith("c") and p[1:3].isdigit() and p.endswith(".py")})
+allp = sorted(set(claimed) | {p[:-3].upper() for p in os.listdir(os.path.join(HERE, "..", "lib")) if re.fullmatch(r"c\d\d\.py", p)})
 sd = os.path.join(HERE, "..", "seeded")
 names = sorted(d for d in os.listdir(sd) if os.path.isdir(os.path.join(sd, d))) if args == ["all"] else args
-resf = os.path.join(sd, "RESULTS.json")
+resf = os.environ.get("SEED_RESULTS") or os.path.join(sd, "RESULTS.json")
 results = json.load(open(resf)) if os.path.exists(resf) else {}
 for name in names:
     d = os.path.join(sd, name)
